@@ -237,3 +237,36 @@ pub fn encoder_trace(args: &Args, s: &mut Summary) {
     s.extra.insert("events".into(), json!(out.len()));
     write_ndjson(trace, &out);
 }
+
+
+/// C07 on whole maps: bundled, generated (well-formed and hostile) and mutated files
+pub fn c07_relations(args: &Args, s: &mut Summary) {
+    let thorough = args.opt("tier") == Some("thorough");
+    let mut rng = Rng::new(args.seed);
+    let files = corpus(&mut rng, if thorough { 600 } else { 120 }, true);
+    for (name, text, _) in &files {
+        let mut variants: Vec<Vec<u8>> = vec![text.as_bytes().to_vec()];
+        if text.len() < 50_000 {
+            // shuffle whole lines inside the file (records move across sections, sections repeat)
+            let mut lines: Vec<&str> = text.lines().collect();
+            for _ in 0..8 {
+                let (a, b) = (rng.below(lines.len()), rng.below(lines.len()));
+                lines.swap(a, b);
+            }
+            variants.push(lines.join("\n").into_bytes());
+        }
+        for v in variants {
+            let d = guarded(&format!("c07 {name}"), || crate::framing::c07_diffs(&v));
+            s.cases += 1;
+            s.checks += 8;
+            match d {
+                Err(p) => s.mismatch("panic", json!({"file": name, "panic": p})),
+                Ok(d) if !d.is_empty() => s.mismatch(&format!("c07:{}", d[0].split('.').next().unwrap_or("")),
+                                                     json!({"file": name, "diffs": d, "text": if name.starts_with("gen") { String::from_utf8_lossy(&v).to_string() } else { String::new() }})),
+                Ok(_) => {}
+            }
+        }
+        s.nontrivial_key(name);
+    }
+    s.sample(json!({"files": files.len()}));
+}
